@@ -102,3 +102,19 @@ Theorem C11_end_to_end_simulation :
        (forall k y, sl_full_run k e pts fmax (s0, con) = Ok y -> (1 <= k)%nat -> limits_nonneg (snd y)) ->
        cinv (snd x') /\ levels_agree (te_of (sl_st (fst x')), snd x')).
 Proof. exact sl_whole_sim_sound. Qed.
+
+(* ---- the simulation of a DISPATCHED train: SpeedLimitTrainSim::walk_timed_path (coq/model/WholeSim.v
+   sl_timed_walk: the timed link path is supplied piecewise - extend_path when a link's time has come, steps until
+   the clock reaches the time of the last link supplied - then walk()).  Tied to the real walk_timed_path end to
+   end (kind sl_timed_walk of this check).  An accepted run ends in the stopping window of the path supplied; no
+   unit loses well-formedness and no unit's cumulative loss / fuel / braking energy decreases on the way. ---- *)
+Theorem C11_dispatched_train_simulation :
+  forall fuel_bp fuel_steps (net : list LinkR) (tp : TPR) tl rp fmax fb st cache (con : ConsistR) x',
+  sl_timed_walk fuel_bp fuel_steps net tp tl rp fmax fb st cache con = Ok x' ->
+  exists w : TimedSim (F:=R),
+    sl_full_walk fuel_steps (env_of_path (tw_path w) rp) (tw_pts w) (path_offset_end (tw_path w)) fmax (tw_x w) = Ok x' /\
+    (path_offset_end (tw_path w) - ft1000 <= k_offset (ts_k (sl_st (fst x'))) /\
+     (path_offset_end (tw_path w) <= k_offset (ts_k (sl_st (fst x'))) \/ k_speed (ts_k (sl_st (fst x'))) = 0)) /\
+    (0 < k_dt (ts_k st) -> Forall loco_ok (cn_locos con) ->
+       Forall loco_ok (cn_locos (snd x')) /\ Forall2 cum_le (cn_locos con) (cn_locos (snd x'))).
+Proof. exact sl_timed_walk_sound. Qed.
